@@ -49,8 +49,22 @@ Fixpoint enc (c : cbor) : bytes :=
 
 (** * decoding *)
 
-Definition take (k : nat) (b : bytes) : option (bytes * bytes) :=
-  if (k <=? length b)%nat then Some (firstn k b, skipn k b) else None.
+(** the first k bytes and the rest (cost k, never the length of the whole input) *)
+Fixpoint take (k : nat) (b : bytes) : option (bytes * bytes) :=
+  match k with
+  | O => Some ([], b)
+  | S k' => match b with
+            | [] => None
+            | x :: r => match take k' r with Some (a, r') => Some (x :: a, r') | None => None end
+            end
+  end.
+
+(** does [b] hold at least [n] bytes?  (cost min(n, |b|); n may be astronomically large) *)
+Fixpoint at_least (b : bytes) (n : N) : bool :=
+  match b with
+  | [] => n =? 0
+  | _ :: r => if n =? 0 then true else at_least r (N.pred n)
+  end.
 
 (** initial byte and argument: (major, additional info, argument, rest) *)
 Definition parse_head (b : bytes) : option (N * N * N * bytes) :=
@@ -93,15 +107,15 @@ Fixpoint parse (fuel : nat) (b : bytes) : option (cbor * bytes) :=
       match major with
       | 0 => Some (CUint arg, r)
       | 1 => Some (CNint arg, r)
-      | 2 => if arg <=? blen r then
+      | 2 => if at_least r arg then
                match take (N.to_nat arg) r with Some (s, r') => Some (CBytes s, r') | None => None end
              else None
-      | 3 => if arg <=? blen r then
+      | 3 => if at_least r arg then
                match take (N.to_nat arg) r with Some (s, r') => Some (CText s, r') | None => None end
              else None
       | 4 => match fuel with
              | O => None
-             | S f => if arg <=? blen r then           (* every element takes at least one byte *)
+             | S f => if at_least r arg then           (* every element takes at least one byte *)
                         match parse_seq (parse f) (N.to_nat arg) r with
                         | Some (l, r') => Some (CArray l, r')
                         | None => None
@@ -110,7 +124,7 @@ Fixpoint parse (fuel : nat) (b : bytes) : option (cbor * bytes) :=
              end
       | 5 => match fuel with
              | O => None
-             | S f => if 2 * arg <=? blen r then
+             | S f => if at_least r (2 * arg) then
                         match parse_seq (fun b0 => match parse f b0 with
                                                    | Some (k, b1) => match parse f b1 with
                                                                      | Some (v, b2) => Some ((k, v), b2)
